@@ -139,7 +139,22 @@ def _t_logging(srcs):
                 n.body[k:k] = ast.parse("_verif_logger.debug('entering %%s', %r)\n" % n.name).body
 
 
-TREE_TRANSFORMS = {"@kwargs_calls": _t_kwargs_calls, "@strip_docs_annotate": _t_strip_docs_annotate, "@logging": _t_logging}
+def _t_coerce_params(srcs):
+    """input coercion at function entry: every function of sempler/utils.py and the model constructors / methods whose first
+    parameter is a matrix (A, G, P, W, pdag, graph) starts with `X = np.asarray(X)` - the identity for ndarray arguments"""
+    import ast
+    for pth, tree in srcs.items():
+        if not pth.endswith(("sempler/utils.py", "sempler/generators.py")):
+            continue
+        for n in ast.walk(tree):
+            if isinstance(n, ast.FunctionDef) and n.args.args:
+                for a in n.args.args[:2]:
+                    if a.arg in ("A", "G", "P", "pdag", "ordered", "P1", "P2"):
+                        k = 1 if (n.body and isinstance(n.body[0], ast.Expr) and isinstance(n.body[0].value, ast.Constant) and isinstance(n.body[0].value.value, str)) else 0
+                        n.body[k:k] = ast.parse("%s = np.asarray(%s)\n" % (a.arg, a.arg)).body
+
+
+TREE_TRANSFORMS = {"@coerce_params": _t_coerce_params, "@kwargs_calls": _t_kwargs_calls, "@strip_docs_annotate": _t_strip_docs_annotate, "@logging": _t_logging}
 
 
 def rename_locals(path, qual):
